@@ -1,5 +1,7 @@
 """C10 -- frequency interpolation is exact at given points and refuses
 out-of-range use."""
+import concurrent.futures
+
 import vlib
 from families import interp
 
@@ -13,8 +15,12 @@ def body(c):
         c.cov["evaluations"] = 1
         c.cov["distinct_nontrivial"] = 1
         return
-    interp.mc(c, c.tier)
-    issues, stats = interp.run(c, exe, c.tier, c.seed)
+    # the design check (TLC) and the implementation runs are independent:
+    # run them side by side
+    with concurrent.futures.ThreadPoolExecutor(1) as ex:
+        fut = ex.submit(interp.mc, c, c.tier)
+        issues, stats = interp.run(c, exe, c.tier, c.seed)
+        fut.result()
     for it in issues:
         c.issue(it)
     c.add_part("interp_traces", stats)
